@@ -7,6 +7,7 @@ import (
 	"math"
 	"math/rand"
 	"path/filepath"
+	"runtime"
 	"sort"
 	"sync"
 
@@ -87,8 +88,24 @@ func encodeCmd(args []string) error {
 	outDir := fs.String("out", "", "")
 	tier := fs.String("tier", "quick", "")
 	seed := fs.Int64("seed", 1, "")
+	history := fs.String("history", "encode-first", "what this process did before its first encode: encode-first | decode-first | mixed")
+	light := fs.Bool("light", false, "point events of the lazily built (16-bit) encoders only")
+	outName := fs.String("name", "c02.ndjson", "")
 	fs.Parse(args)
-	sink, done, err := newSink(filepath.Join(*outDir, "c02.ndjson"))
+	// the 16-bit encode tables are built on first use: their content must not depend on what
+	// the process did before, nor on GOMAXPROCS at that moment (set through the environment)
+	hist := fmt.Sprintf("%s/P%d", *history, runtime.GOMAXPROCS(0))
+	if *history == "decode-first" || *history == "mixed" {
+		srgb.From16Bit(1234)
+		prophotorgb.From16Bit(1234)
+		if *history == "decode-first" {
+			adobergb.From16Bit(1234)
+			displayp3.LineariseColor(color.NRGBA64{R: 1, G: 2, B: 3, A: 65535})
+		} else {
+			adobergb.To8Bit(0.25)
+		}
+	}
+	sink, done, err := newSink(filepath.Join(*outDir, *outName))
 	if err != nil {
 		return err
 	}
@@ -97,6 +114,9 @@ func encodeCmd(args []string) error {
 	// ---- point events: bucket boundaries +-2 ulp, specials, seeded floats ----
 	parallel(len(encFns), func(fi int) {
 		f := encFns[fi]
+		if *light && f.fn != "to16" {
+			return
+		}
 		rng := rand.New(rand.NewSource(*seed*131 + int64(fi)))
 		xs := map[uint32]bool{}
 		add := func(x float32) {
@@ -173,7 +193,9 @@ func encodeCmd(args []string) error {
 			if p.x != p.x {
 				po = 0 // NaN is outside the order
 			}
-			sink.put(pointEvent(f, p.x, out, po))
+			ev := pointEvent(f, p.x, out, po)
+			ev["history"] = hist
+			sink.put(ev)
 			if p.x == p.x {
 				prev = out
 			}
@@ -183,6 +205,9 @@ func encodeCmd(args []string) error {
 	// ---- the same law reached through the colour types of all four spaces ----
 	rng := rand.New(rand.NewSource(*seed))
 	nag := 3000
+	if *light {
+		nag = 0
+	}
 	for i := 0; i < nag; i++ {
 		r, g, b := rng.Float32()*1.2-0.1, rng.Float32(), float32(math.Pow(rng.Float64(), 4))
 		a := rng.Float32()
